@@ -179,7 +179,7 @@ class C07(Prop):
         if case["kind"] != "parse" or case.get("noctx"):
             return None
         # F-C07e: TypeError out of parse_argv, the model agrees (corr), and the command line
-        # mentions -- as an exact flag or as a member of a short-flag cluster -- a counter
+        # mentions -- as an exact flag, with an attached '=value', or as a member of a short-flag cluster -- a counter
         # (incrementable) whose default is not a number.
         if obs.get("err") == "TypeError" and (verdict is None or verdict.get("corr", False)):
             body = pc.body_of(case["argv"])
@@ -188,7 +188,7 @@ class C07(Prop):
                     if a["incrementable"] and not isinstance(a["default"], (int, bool)):
                         for fl in pc.spellings_of_arg(a):
                             for t in body:
-                                if t == fl or (len(fl) == 2 and t.startswith("-") and
+                                if t == fl or t.startswith(fl + "=") or (len(fl) == 2 and t.startswith("-") and
                                                not t.startswith("--") and fl[1] in t[1:]):
                                     return "F-C07e"
         return None
